@@ -58,13 +58,25 @@ def count_loc(class_node: Any, source: str) -> int:
     if not lines:
         return end_line - start_line + 1
     # Lines of code exclude blank lines and comment lines, as for Python and Rust
-    return sum(1 for line in lines if _is_code_line(line))
+    return _count_code_lines(lines)
 
 
-def _is_code_line(line: str) -> bool:
-    """Check if a source line is neither blank nor a comment-only line."""
-    stripped = line.strip()
-    return bool(stripped) and not stripped.startswith(("//", "/*", "*"))
+def _count_code_lines(lines: list[str]) -> int:
+    """Count lines that are neither blank, // comments, nor inside a /* ... */ block comment."""
+    count = 0
+    in_block_comment = False
+    for line in lines:
+        stripped = line.strip()
+        if in_block_comment:
+            in_block_comment = "*/" not in stripped
+            continue
+        if not stripped or stripped.startswith("//"):
+            continue
+        if stripped.startswith("/*"):
+            in_block_comment = "*/" not in stripped
+            continue
+        count += 1
+    return count
 
 
 def _get_class_body(class_node: Any) -> Any:
